@@ -279,6 +279,9 @@ func c17Save(r *rand.Rand) Case {
 			if r.Intn(12) == 0 {
 				v = []string{"\nleading newline", "\t\nx", "\n"}[r.Intn(3)]
 			}
+			if r.Intn(6) == 0 { // one item name on both interfaces: they are independent of each other
+				k = "shared.key"
+			}
 			m.StringData().Update(k, v)
 			ws[k] = v
 			ops = append(ops, "MStrUpdate "+gStr(k)+" "+gStr(v))
@@ -292,8 +295,14 @@ func c17Save(r *rand.Rand) Case {
 		case 2:
 			k := fmt.Sprintf("b%d.bin", r.Intn(6))
 			bs := make([]byte, r.Intn(6))
+			if r.Intn(25) == 0 { // an item beyond any small-item fast path, its length not a multiple of 3
+				bs = make([]byte, 4097+r.Intn(2))
+			}
 			for j := range bs {
 				bs[j] = byte(r.Intn(256))
+			}
+			if r.Intn(6) == 0 {
+				k = "shared.key"
 			}
 			m.BinaryData().Update(k, bs)
 			wb[k] = bs
@@ -315,6 +324,13 @@ func c17Save(r *rand.Rand) Case {
 	gs, gb := itemsOf(m)
 	if !reflect.DeepEqual(gs, ws) || !reflect.DeepEqual(gb, wb) {
 		fail = append(fail, "facade Get/List differ from the plain maps after the updates")
+	}
+	// a write that fails part-way (disk full, broken pipe) leaves nothing behind in the manifest object:
+	// the retry writes the document once
+	if r.Intn(3) == 0 {
+		if pn := guard(func() { _, _ = m.WriteTo(&failAfterW{n: r.Intn(40)}) }); pn != "" {
+			fail = append(fail, "panic in a WriteTo whose writer fails: "+pn)
+		}
 	}
 	var out bytes.Buffer
 	if pn := guard(func() { _, err = m.WriteTo(&out) }); pn != "" || err != nil {
@@ -668,7 +684,7 @@ func init() {
 			}
 			return cs
 		},
-		Rule: "kinds: load (Secret/ConfigMap manifests with metadata/extra fields, text items incl. multi-line/unicode/numeric-looking/empty, binary items of 0-17 arbitrary bytes; 1/4 malformed: missing or non-string or unsupported kind, non-string or non-base64 binary value, section that is not a map: error or manifest, never a panic; plus a fixed corpus of 122 hostile manifests — every kind of non-string value in every section of both kinds, non-map sections, odd kinds — through ManifestFromBytes, Properties, YamlDoc and JsonDoc), save (load, with manifests of both kinds loaded and written in between, 0-6 Update/Remove on both facades, WriteTo, control decode + reload: item maps, non-data fields, section placement and base64), embedded-0/1/2 (YAML / JSON / properties document inside a ConfigMap on a temp file: 1-6 edits, Save, reopen, other items untouched), create (NewBuilder().Create of either kind with/without namespace, embedded properties edited, saved, reopened; kind/name/namespace in the written file), b64-enc / b64-dec (Go StdEncoding vs the Coq model on edge lengths and corrupted inputs). Non-trivial: manifest has both sections and extra fields / >= 2 edits. Distinct by Gallina term or (format,start,edits). Text items with CR LF line ends; empty top-level mappings/lists outside the data sections.",
+		Rule: "kinds: load (Secret/ConfigMap manifests with metadata/extra fields, text items incl. multi-line/unicode/numeric-looking/empty, binary items of 0-17 arbitrary bytes; 1/4 malformed: missing or non-string or unsupported kind, non-string or non-base64 binary value, section that is not a map: error or manifest, never a panic; plus a fixed corpus of 122 hostile manifests — every kind of non-string value in every section of both kinds, non-map sections, odd kinds — through ManifestFromBytes, Properties, YamlDoc and JsonDoc), save (load, with manifests of both kinds loaded and written in between, 0-6 Update/Remove on both facades, WriteTo, control decode + reload: item maps, non-data fields, section placement and base64), embedded-0/1/2 (YAML / JSON / properties document inside a ConfigMap on a temp file: 1-6 edits, Save, reopen, other items untouched), create (NewBuilder().Create of either kind with/without namespace, embedded properties edited, saved, reopened; kind/name/namespace in the written file), b64-enc / b64-dec (Go StdEncoding vs the Coq model on edge lengths and corrupted inputs). Non-trivial: manifest has both sections and extra fields / >= 2 edits. Distinct by Gallina term or (format,start,edits). Text items with CR LF line ends; empty top-level mappings/lists outside the data sections. A WriteTo into a failing writer before the real one; binary items of 4097/4098 bytes; one item name used on both data interfaces.",
 		Gen: func(r *rand.Rand, tier string, idx int) Case {
 			switch idx % 8 {
 			case 0:
